@@ -127,8 +127,8 @@ def execute(case):
                                     ('^dtn://del/', 'delete')],
                    tx_routes=[('^dtn://fwd/', 'dtn://next/', None), ('^dtn://reports/', 'dtn://rp/', None),
                               ('^ipn:', 'dtn://rp/', None)])
-    for route in node.config.tx_route_table[1:]:
-        route.mtu = case.get('rpt_mtu')
+    for index in range(1, len(node.config.tx_route_table)):
+        node.set_mtu(index, case.get('rpt_mtu'))
     if case.get('rpt_mtu'):
         out.label('report-route-mtu')
     seen = set()
@@ -193,9 +193,9 @@ def one(node, item, index, out, seen):
     seen.add(ident)
     if outcome in ('forward-frag', 'fwd-frag-cl-fails'):
         empty = dict(bundle, blocks=bundle['blocks'][:-1] + [dict(bundle['blocks'][-1], data='')])
-        node.config.tx_route_table[0].mtu = len(r.encode(empty)) + 80
+        node.set_mtu(0, len(r.encode(empty)) + 80)
     else:
-        node.config.tx_route_table[0].mtu = None
+        node.set_mtu(0, None)
     # the convergence layer towards the forwarding next hop fails at hand-over (its service went away); reports travel
     # over another next hop and still get out
     node.cl.fail_next = {'dtn://next/'} if outcome in ('fwd-cl-fails', 'fwd-frag-cl-fails') else set()
